@@ -8,7 +8,7 @@ export const PROVENANCE = ['vueNamed', 'vueNamedInner', 'vueAliased', 'nsMember'
 export const DECLS = ['const', 'let', 'var', 'exportConst', 'exportDefault', 'assignment', 'nestedInCall', 'objectProp'];
 // user-supplied option keys: how each of props / emits / name is written (or not)
 const KEY_FORMS = ['absent', 'kv', 'strKey', 'shorthand', 'computedLit', 'viaSpread'];
-export const SHAPES = ['none', 'objLiteral', 'identOptions', 'callOptions', 'spreadArgsAll', 'spreadArgsRest', 'objectFirstArg', 'namedFnExpr'];
+export const SHAPES = ['none', 'objLiteral', 'objLiteralTwoSpreads', 'identOptions', 'callOptions', 'spreadArgsAll', 'spreadArgsRest', 'spreadArgsSetupOnly', 'spreadHeadThenOpts', 'objectFirstArg', 'namedFnExpr'];
 
 const USER = { props: 'UP', emits: 'UE', name: '"UserName"' };
 
@@ -52,6 +52,15 @@ function buildCase(rng, prov, decl, shape, forms, resolveType) {
       if (spreadMembers.length) { L.push(`const USP = { ${spreadMembers.join(', ')} };`); parts.splice(rng.int(parts.length + 1), 0, '...USP'); }
       args = `${setup}, { ${parts.join(', ')} }`; break;
     }
+    case 'objLiteralTwoSpreads': {
+      // user values arrive through the FIRST spread; a later spread carries unrelated keys
+      const carried = [...members, ...spreadMembers];
+      L.push(`const USP = { ${carried.join(', ')} };`, 'const USP2 = { inheritAttrs: true, extra: 1 };', 'const USP3 = {};');
+      const mid = rng.bool() ? 'inheritAttrs: false, ' : '';
+      args = `${setup}, { ...USP, ${mid}...USP2${rng.bool() ? ', ...USP3' : ''} }`; break;
+    }
+    case 'spreadArgsSetupOnly': L.push(`const ARGS1: [any] = [${setup}];`); args = '...ARGS1'; augmentable = false; for (const k of Object.keys(supplied)) delete supplied[k]; break;
+    case 'spreadHeadThenOpts': L.push(`const HEAD: [any] = [${setup}];`, `const UO = { ${[...members, ...spreadMembers, ...other].join(', ')} };`); args = '...HEAD, UO'; augmentable = false; break;
     case 'identOptions': L.push(`const UO = { ${[...members, ...spreadMembers, ...other].join(', ')} };`); args = `${setup}, UO`; break;
     case 'callOptions': L.push(`const mkUO = () => ({ ${[...members, ...spreadMembers, ...other].join(', ')} });`); args = `${setup}, mkUO()`; break;
     case 'spreadArgsAll': L.push(`const ARGS: [any, any] = [${setup}, { ${[...members, ...spreadMembers, ...other].join(', ')} }];`); args = '...ARGS'; augmentable = false; break;
@@ -86,7 +95,7 @@ function buildCase(rng, prov, decl, shape, forms, resolveType) {
     spec: {
       prov, isVueRuntime: ['vueNamed', 'vueNamedInner', 'vueAliased', 'nsMember'].includes(prov), augment, mayAugment, supplied, shape, fnName, varNamed,
       // `defineComponent(...args)` hides the argument count from the transform, but not from the runtime
-      nameInjectable: resolveType && isVue && varNamed && shape !== 'spreadArgsAll' && shape !== 'spreadArgsRest',
+      nameInjectable: resolveType && isVue && varNamed && !shape.startsWith('spread'),
       mayNameInject: resolveType && prov === 'vueAliased' && varNamed && augmentable,
     },
   };
@@ -182,7 +191,7 @@ export async function check(group, records) {
     // non-vue callee: the call must be untouched (same argument count, no injected keys)
     const calls = rt.log.filter((e) => e.k === 'call' && (e.id === 'recordDC' || e.id === 'other.defineComponent'));
     if (calls.length !== 1) return [inconclusive({ ...base, reason: `expected 1 recorded call, saw ${calls.length}` })];
-    const expectedArgc = { none: 1, objLiteral: 2, identOptions: 2, callOptions: 2, spreadArgsAll: 2, spreadArgsRest: 2, objectFirstArg: 1, namedFnExpr: /, \{/.test(group.cases.v0.src.split('OwnName')[1] || '') ? 2 : 1 }[spec.shape];
+    const expectedArgc = { none: 1, objLiteral: 2, objLiteralTwoSpreads: 2, identOptions: 2, callOptions: 2, spreadArgsAll: 2, spreadArgsRest: 2, spreadArgsSetupOnly: 1, spreadHeadThenOpts: 2, objectFirstArg: 1, namedFnExpr: /, \{/.test(group.cases.v0.src.split('OwnName')[1] || '') ? 2 : 1 }[spec.shape];
     const argc = calls[0].id === 'recordDC' ? undefined : calls[0].argc;
     // recordDC("tag", argc, a, b): look at the final text instead of the values for the injected keys
     const finalCall = rec.final;
